@@ -46,6 +46,12 @@ def words {n : Nat} (v : Vec Float n) : String := " ".intercalate ((toArray v).t
 
 def emit {L : LieModel Float} (st : St L) (s : String) : St L := { st with out := st.out.push s }
 
+/-- the whole state of a spline as text (bit patterns), to compare two model results -/
+def dump {L : LieModel Float} (s : Spl L) : String :=
+  words s.g0 ++ " | " ++ " | ".intercalate (s.segs.map fun sg =>
+    Bits.toHex sg.tEnd ++ " " ++ words sg.gEnd ++ " " ++ " ".intercalate (sg.V.map words) ++ " " ++
+      Bits.toHex sg.T0 ++ " " ++ Bits.toHex sg.Del)
+
 def nums (toks : List String) : Array Float := (toks.map (Bits.ofHex (α := Float))).toArray
 
 def needN (a : Array Float) (n : Nat) (what : String) : Except String Unit :=
@@ -89,7 +95,10 @@ def step (L : LieModel Float) (K : Nat) (C : SplineSM.Ker Float (Vec Float L.rep
     return setReg st d (SplineSM.concatGlobal x y)
   | ["crop", d, x, ta, tb, loc] =>
     let d ← regOf d; let x ← getReg st (← regOf x)
-    return setReg st d (SplineSM.crop C x (Bits.ofHex ta) (Bits.ofHex tb) (loc == "1"))
+    let y := SplineSM.crop C x (Bits.ofHex ta) (Bits.ofHex tb) (loc == "1")
+    let y' := SplineSM.cropIdx C x (Bits.ofHex ta) (Bits.ofHex tb) (loc == "1")
+    if dump y != dump y' then throw "crop: list form and index form of the model disagree"
+    return setReg st d y
   | ["make_local", d, x] =>
     let d ← regOf d; let x ← getReg st (← regOf x)
     return setReg st d (SplineSM.makeLocal C x)
